@@ -30,6 +30,35 @@ Theorem C10_clamp_safe_over_array : forall t tc sizes lo hi (b : query) c, is_fl
              0 <= rowmajor sizes c' < zprod sizes.
 Proof. exact clamp_safe_over_array. Qed.
 
+(* "clamp placed below an interpolator": with the clamp directly over row-major array storage, a box inside
+   the extents and storage addressable by the index type, EVERY coordinate the interpolator can convert to
+   the index type is answered, and each of the 2^N (linear) / the one (nearest neighbour) storage cells
+   read lies inside the storage *)
+Theorem C10_linear_over_clamp_safe : forall (t tc : sty) (sizes lo hi : list Z) (m : nat) (data : list Z),
+  is_float t = false -> length lo = length sizes -> length hi = length sizes ->
+  Forall2 (fun l h => 0 <= l <= h) lo hi -> Forall2 (fun h s => h < s) hi sizes ->
+  (forall z, 0 <= z < zprod sizes -> wrap_sty tc z = z) ->
+  forall tcoord tv (c : list Z), length c = length sizes -> forallb (conv_defined flocq_ops tcoord t) c = true ->
+  exists tr vs, linear_at flocq_ops tcoord t tv (clamped_storage t tc sizes lo hi m data) c = Some (tr, vs) /\
+                Forall (in_storage sizes) tr.
+Proof. exact linear_over_clamp_safe. Qed.
+Theorem C10_nearest_over_clamp_safe : forall (t tc : sty) (sizes lo hi : list Z) (m : nat) (data : list Z),
+  is_float t = false -> length lo = length sizes -> length hi = length sizes ->
+  Forall2 (fun l h => 0 <= l <= h) lo hi -> Forall2 (fun h s => h < s) hi sizes ->
+  (forall z, 0 <= z < zprod sizes -> wrap_sty tc z = z) ->
+  forall tcoord (c : list Z), length c = length sizes ->
+  forallb (fun x => s_finite flocq_ops tcoord x && sty_range I64 (f_lrint flocq_ops tcoord x)) c = true ->
+  exists i v, nearest_at flocq_ops tcoord t (clamped_storage t tc sizes lo hi m data) c = Some ([i], v) /\ in_storage sizes i.
+Proof. exact nearest_over_clamp_safe. Qed.
+
+(* non-vacuity: a 3 x 4 field of floats, box [0,2] x [0,3], the coordinate (1e6, 2.5): far outside on the first axis;
+   the four neighbour queries (1e6|1e6+1, 2|3) are clamped to (2, 2|3), i.e. cells 10, 11, 10, 11 of the 12 *)
+Example C10_linear_over_clamp_runs :
+  exists vs, linear_at flocq_ops F32 U64 F32 (clamped_storage U64 U64 [3; 4] [0; 0] [2; 3] 1 (map Z.of_nat (seq 0 12))) [1232348160; 1075838976]
+             = Some ([10; 11; 10; 11], vs).
+Proof. eexists. vm_compute. reflexivity. Qed.
+
 Print Assumptions C10_clamp_in_box.
+Print Assumptions C10_linear_over_clamp_safe.
 Print Assumptions C10_order_irreflexive.
 Print Assumptions C10_clamp_safe_over_array.
